@@ -15,7 +15,9 @@ CHECKS = {
                    "both judged by a history checker: porcupine linearizability against a node-identity (generation-aware) sequential model of the tree, "
                    "an interval rule for Query/Walk, a structural deadlock test on goroutine dumps, and race reports classified by their pair of top gnmi frames; "
                    "every exported method of the tree (also Get, Value, Children, IsBranch, String, the Reset idiom Children+Delete) is invoked on the root, on sub-tree nodes a fresh Get returns and on retained nodes, "
-                   "concurrently with structural writers, under interval rules for Children/IsBranch/Value and a brute-force sequential-order check on small histories"),
+                   "concurrently with structural writers, under interval rules for Children/IsBranch/Value and a brute-force sequential-order check on small histories; "
+                   "value-dependent conditional deletes against writers that move the truth of the condition from leaf to leaf (invariants every sequential order keeps: at least one / at most one leaf matches at every instant), "
+                   "free-running over thousands of aligned rounds and with the delete parked inside its condition callback"),
         level_text=("Gate part: 2-4 threads whose Adds share a not-yet-existing branch; an Add is parked between dropping the node's read lock and requesting its write lock "
                     "(ancestors still read-locked) while the other threads add / look up / query beneath the same node (and delete, when the parked thread holds no lock), then released; "
                     "the schedule is part of the generated data, every step runs to quiescence, the recorded history (parked Adds span their window, everything else is atomic, "
@@ -33,6 +35,14 @@ CHECKS = {
                     "(also with several deleters queued for the root lock and a refill right after the delete). Judged: a panic on any goroutine is a violation with the scenario; all goroutines join; no race report; "
                     "Children returns only names that had a leaf below them at some instant of the call and every name that had one throughout, IsBranch / Value are consistent with some instant, String parses back into leaves that obey the "
                     "interval rule, sorted order and (on the root) delete atomicity; on burst / pair-access / cbgate histories Children / IsBranch / Value take part in the sequential-order check (one atomic step on the root, lookup + read otherwise). "
+                    "Move family (part pair-move, c10_pairmove_test.go; cbgate profile move-vs-conditional-delete): 2-4 hot leaves below one branch of which some satisfy the condition of the conditional deletes (the stored int is even; "
+                    "which write makes a leaf match is generated data), surrounded by 0-256 bystander leaves nobody writes (they widen a scan; half of them sort between the hot leaves); a mover rewrites the hot leaves one after the other - "
+                    "Add on the existing leaf or Leaf.Update through a handle - in an order that keeps an invariant in every sequential order: make-then-break (at every instant at least one leaf matches: a conditional delete over them "
+                    "cannot remove nothing), break-then-make (never two: it cannot remove both, nor report two values that never matched together), rotate over three leaves, two movers, generated rewrites, the mirrored predicate; "
+                    "against DeleteConditional / WalkDeleted (rarely Delete) with subtree / glob / everything patterns, optionally sweeping twice, a second deleter, a reader or a third writer. pair-move runs every scenario for "
+                    "600-20000 aligned rounds (fewer the more bystanders) on persistent racers, every round judged through its canonical form (the result of every operation - removed paths / reported values, nothing removed included - the final "
+                    "content and the real-time precedence between operations; first occurrence of a form and one round in 4096 by porcupine against the model, in which a delete removes exactly the selected leaves that satisfy the condition "
+                    "in one step, and by the differential oracle). In cbgate the delete parks inside its k-th condition call while the mover makes a leaf the delete inspected and kept match and then an uninspected leaf stop matching. "
                     "Bounded exploration of schedules: the gate part is exhaustive in nothing, the stress part sees only schedules the Go scheduler produces."),
         level_note=("trusts the ~600-line history judge (sequential model + interval rule) and porcupine v1.3.0; the whole history is judged exactly when porcupine finishes within 400 ms, otherwise "
                     "(1-3% of histories) on its three per-subtree projections, which is sound but does not demand that a delete spanning subtrees takes effect in all of them at one instant "
@@ -46,7 +56,11 @@ CHECKS = {
               "open-finding classes understood by the engine: race-leaf-update-vs-delete (D6; alias race:ctree.(*Leaf).Update|ctree.(*Tree).internalDelete) and "
               "conditional-delete-not-atomic-vs-handle-update: while listed open, handle updates are serialised against (conditional) deletes by a harness lock and every prevented overlap is counted in excluded_known. "
               "pair-access: a case is one scenario (root state, 2-4 racers with at least one accessor and one mutator of the root's state) executed for thousands of rounds; non-trivial = two different outcomes were observed or operations of two racers overlapped; "
-              "labels access:<method>:<root|sub-node>[:overlaps-removing-delete|:overlaps-delete-that-emptied-the-tree|:overlaps-successful-add], access:retained-node:<kind>, access:reset-idiom-delete, profile:single-subtree, state:<root state> show what was exercised"),
+              "labels access:<method>:<root|sub-node>[:overlaps-removing-delete|:overlaps-delete-that-emptied-the-tree|:overlaps-successful-add], access:retained-node:<kind>, access:reset-idiom-delete, profile:single-subtree, state:<root state> show what was exercised. "
+              "pair-move: a case is one scenario (shape of the movers' programs, delete kind and pattern, bystanders, who leads, skew) executed for its rounds; non-trivial = two different outcomes were observed or operations of two racers overlapped; "
+              "labels shape:<make-then-break|break-then-make|rotate|two-movers|free>[/mirrored], invariant:<...>, mover-writes:<add-on-existing-leaf|handle-update|add-and-handle-update>, bystanders:<n>, deleter:<kind>, delete-pattern:<...> say what was generated, "
+              "observed:delete-overlaps-every-write-of-a-mover and observed:overlapping-conditional-delete-removed:<nothing|one-leaf|several-leaves> what the rounds reached; cbgate: profile:move-vs-conditional-delete, "
+              "parked-delete:kept-leaf-made-matching[:same-thread-makes-uninspected-leaf-not-matching-next], parked-delete:uninspected-leaf-made-not-matching"),
         assumptions=COMMON + [SYNCTEST_ASSUMPTION,
                               "stored values are non-nil ints, unique per write (nil is the tree's 'empty' sentinel); Add/Get paths contain no '*'",
                               "gate part: a step that would need a lock held by a parked thread is skipped and counted (sync.RWMutex waits are invisible to synctest.Wait); no delete is scheduled while a parked thread holds an ancestor's read lock",
@@ -69,6 +83,10 @@ CHECKS = {
             # the Reset idiom) against the root's transitions (emptying deletes, first Add into an empty tree, refill, queued deleters)
             dict(name="pair-access", run="TestC10PairAccess", checks=dict(quick=40, thorough=300), shards=dict(quick=2, thorough=8),
                  args=dict(quick=["-c10.pairrounds=8000", "-c10.stall=20s"], thorough=["-c10.pairrounds=30000"])),
+            # the pair machinery on a third family: value-dependent conditional deletes against writers that move the truth of the condition between
+            # leaves (rounds per scenario are the scenario's own: 20000 without bystander leaves down to 600 with 256)
+            dict(name="pair-move", run="TestC10PairMove", checks=dict(quick=20, thorough=150), shards=dict(quick=2, thorough=8),
+                 args=dict(quick=["-c10.stall=20s"], thorough=["-c10.movescale=2"])),
         ],
     ),
     "C01": dict(
@@ -127,7 +145,8 @@ CHECKS = {
         engine="managerprop",
         technique=("property-based testing (rapid) of generated fault scripts and externally timed Remove/Reconnect/Add calls against the real manager.Manager "
                    "under virtual time (testing/synctest), with a per-target runtime monitor (trace predicates) over the totally ordered trace of callbacks, "
-                   "dial/stream events and external calls"),
+                   "dial/stream events and external calls; part real: the same manager over the REAL connection.Manager with scripted dial functions "
+                   "(dial deadline and cancellation travel through the shared-dial machinery), judged by the same monitor plus bounded-virtual-time clauses"),
         level_text=("Thousands (quick) to 320 000 (thorough) generated scenarios: 1-3 targets on shared or distinct addresses, each with a script of up to 6 "
                     "connection attempts (dial refused / hanging until cancelled or until Config.Timeout / answering after a delay; stream constructor failing; Send failing; "
                     "0-5 messages - update, sync, deprecated error response, response without any arm - each after 0-7 s of silence, updates optionally consumed by a slow "
@@ -149,7 +168,19 @@ CHECKS = {
                     "Sensitivity: 22 seeded manager mutants (no Reset on EOF / when cancelled / unless connected, Connect at stream open / after the first update / once per target, "
                     "Remove not waiting or cancelling late, retry loop stopping, no fresh context after a forced reconnect, double Reset, delivery in a goroutine, reordered / dropped "
                     "deliveries, duplicate Add replacing, unknown Remove accepted, MaxInterval not applied (2 variants), delay/1000, no receive-timeout goroutine, Reconnect a no-op, "
-                    "template customised in place) are all reported within 30 cases on 3 seeds and their shrunk replays fail again. Bounded exploration, not a proof."),
+                    "template customised in place) are all reported within 30 cases on 3 seeds and their shrunk replays fail again. Bounded exploration, not a proof. "
+                    "Part real (real_scenario.go, real_run.go): manager.Manager over connection.NewManagerCustom (the real shared-dial connection manager, wrapped only to record "
+                    "Connection calls and returns) whose dial function follows a per-ADDRESS script, one step per dial made to the address: ok / refused at once, hang = block until the "
+                    "context handed to the dial ends (deadline or cancellation) and fail with its error (grpc.WithBlock against a dead address), slow-ok / slow-refused = block 10 ms-100 s "
+                    "(shorter or longer than the dial timeout) unless the context ends first, late-ok = hand back a connection although the context has ended; Config.Timeout 0 / 301 ms / "
+                    "2 s / 10 s / 60 s; 1-3 targets all on one address, all distinct or mixed, some added late by an event; stream scripts per target as before (Subscribe stream stays the "
+                    "in-memory double); Remove / Reconnect / Add (duplicate, re-add, late first add) at generated instants, landing while the target's Connection call is outstanding as the "
+                    "dial's starter or as a waiter on another target's dial, in backoff, or mid-session. Clauses on top of the monitor: with Config.Timeout > 0 no Connection call of the manager "
+                    "stays outstanding longer than Config.Timeout (a dial that outlives the dial timeout is a failed attempt; the monitor then demands the retry within the backoff bound, so the "
+                    "gap between attempts is bounded by dial timeout + backoff); every Remove, run on its own goroutine, has returned within dial bound + largest retry delay of virtual time "
+                    "(otherwise 'remove-never-returns'; the case is then wound down by failing every pending dial). Sensitivity of this part: detaching the shared dial from its starter's "
+                    "context (context.WithoutCancel, with or without re-attaching the deadline), a 100x dial timeout, a retry loop that gives up after DeadlineExceeded are reported within 5 "
+                    "cases; a connection manager that detaches the dial but lets waiters honour their own context passes."),
         level_note=("trusts the ~350-line monitor (unit-checked on hand-made traces: TestSelfJudge) and the in-memory doubles (ConnectionManager handing out an idle "
                     "grpc.NewClient connection that is never used, scripted gpb.GNMI_SubscribeClient whose Recv/Send/dial return ctx.Err() as soon as their context ends, "
                     "target attribution through the outgoing metadata key 'target' the manager sets); external calls land only at quiescent points of virtual time (including inside "
@@ -159,7 +190,8 @@ CHECKS = {
         rule=("cases are scenarios (retry parameters, 1-3 target scripts, 0-7 timed external calls, tail); non-trivial = at least one stream whose Recv fails after it handed "
               "over >=1 message (not counting streams ended by the harness's final clean-up Removes) AND a generated Remove or Reconnect that lands mid-session "
               "(Connect reported, stream alive, Recv blocked or Update callback running) or mid-backoff (failure seen, next Connection call not yet started); "
-              "distinct = distinct hash of the scenario"),
+              "distinct = distinct hash of the scenario; real: non-trivial = a dial function that did not answer at once AND (a dial ended by the manager's dial deadline OR a generated "
+              "Remove / Reconnect / Add landing while a Connection call of its target - for a fresh Add: a dial to its address - is outstanding)"),
         assumptions=COMMON + [SYNCTEST_ASSUMPTION,
                               "one address per target (createConn tries a target's next hops in map order, which would make traces irreproducible); no credentials lookup",
                               "collaborators honour context cancellation promptly, as gRPC dials and streams do; Recv never returns (nil, nil)",
@@ -171,11 +203,17 @@ CHECKS = {
                               "'retried with backoff' is read as: next attempt within [RetryBaseDelay*(1-RetryRandomization), RetryMaxDelay*(1+RetryRandomization)] after the failure (1 ms slack); "
                               "'attempt starts' = the ConnectionManager is asked for a connection",
                               "a re-Add after Remove truncates that Remove's silence window at the Add (callbacks carry only the name); Removes without a later Add are observed for >= 10 x the largest retry delay",
-                              "Reconnect of an unknown name is exercised but its return value is not judged (the statement is silent about it)"],
+                              "Reconnect of an unknown name is exercised but its return value is not judged (the statement is silent about it)",
+                              "part real: dial functions return the moment the context they were given ends (as grpc.DialContext does); no receive timeouts and no slow callbacks there (a Remove that "
+                              "waits for a shared dial holds the manager's mutex, see above); with Config.Timeout == 0 a dial that lasts until its context ends is generated on unshared addresses only: "
+                              "connection.Manager.Connection documents that a caller waits unconditionally for a pending attempt to the same address, so a Remove of a WAITING target returns when the "
+                              "starter's dial ends - after at most Config.Timeout when one is set (the starter's deadline), never otherwise; Remove's latency is not in the statement: it is only required "
+                              "to be finite (dial bound + largest retry delay); connections left open at the end of a case are closed by the harness, not judged (C16)"],
         parts=[
             dict(name="random", run="TestC13Random", checks=dict(quick=2000, thorough=20000), shards=dict(quick=1, thorough=16)),
             dict(name="overlap", run="TestC13Overlap", checks=dict(quick=500, thorough=8000), shards=dict(quick=4, thorough=16)),
             dict(name="long", run="TestC13Long", checks=dict(quick=300, thorough=3000), shards=dict(quick=4, thorough=16)),
+            dict(name="real", run="TestC13Real", checks=dict(quick=500, thorough=6000), shards=dict(quick=4, thorough=16)),
         ],
     ),
     "C18": dict(
@@ -236,6 +274,7 @@ CHECKS = {
         parts=[
             dict(name="random", run="TestC18Random", checks=dict(quick=3000, thorough=20000), shards=dict(quick=1, thorough=16)),
             dict(name="lifetime", run="TestC18Lifetime", checks=dict(quick=5000, thorough=20000), shards=dict(quick=1, thorough=8)),
+            dict(name="entry", run="TestC18Entry", checks=dict(quick=4000, thorough=20000), shards=dict(quick=1, thorough=8)),
             dict(name="types", run="TestC18Types", checks=dict(quick=3000, thorough=20000), shards=dict(quick=1, thorough=4)),
             dict(name="content", run="TestC18Content", checks=dict(quick=3000, thorough=20000), shards=dict(quick=1, thorough=4)),
             dict(name="transport", run="TestC18Transport", checks=dict(quick=40, thorough=250), shards=dict(quick=1, thorough=4)),
@@ -264,6 +303,13 @@ CHECKS = {
                     "called from 2-4 goroutines at once. The model keeps one generation per hand-out: a connection that the scenario closed is excused from 'not SHUTDOWN while held' and a request for its "
                     "address may share it or dial afresh (neither is demanded), but every hand-out - also one dialled while the dead connection is still held - must stay open until ITS holders released it, "
                     "be closed and forgotten at ITS last release, and no release of another generation may touch it; connections the scenario did not close obey every clause in every connectivity state. "
+                    "Arguments of Connection (part dialers on one or two addresses; a fifth of the requests of random, wide and outside): every request draws its own dialer name - the default, a second scripted "
+                    "dialer, one that always fails at once, one that always succeeds at once, two names that are never registered, and (a fifth of the dialers cases) names this case's Manager was built without, "
+                    "the default included - whatever is pending, held or was just released for its address, and its own context: background, already cancelled, cancelled by a later step, or with a deadline "
+                    "in virtual time (2 s / 10 s / 1 h / already expired) that tick steps let expire while it waits, holds or after its release. What a request that names another dialer than the one its "
+                    "address's pending dial / held connection went through is answered is not prescribed (the unchanged code shares; an error, at once or after the dial, and a dial of its own while none is in "
+                    "flight are accepted); the clauses are judged per hand-out: a request answered with an error holds nothing (the connection is SHUTDOWN right after the last requester that was handed it "
+                    "released it and the next request dials afresh; its done func changes nothing), one that was handed the connection is a holder like any other, never two dials in flight for one address. "
                     "Bounded random exploration, not a proof."),
         level_note=("trusts the ~150-line generation model in connprop/run.go; 'closed exactly once' is decided as: open while held, SHUTDOWN at zero, forgotten afterwards, no later release "
                     "touches the successor (a second Close of the same *grpc.ClientConn is not observable through the exported API); calls are serialised by quiescence, the only "
@@ -275,13 +321,19 @@ CHECKS = {
         rule=("cases are scenarios (addresses, threads, step list); non-trivial = during the generated steps (epilogue excluded) some connection had >=2 holders that had returned from "
               "Connection() and not yet released it AND >=1 invocation of the dial function ended with an error or was cancelled and that failure was published; "
               "distinct = distinct hash of the scenario; the labels prefixed 'outside:' count the cases in which a connection was closed by a holder / by the dial function, was held in a "
-              "non-idle connectivity state, or was released from several goroutines at once"),
+              "non-idle connectivity state, or was released from several goroutines at once; "
+              "dialers: cases are scenarios as above plus the set of names the Manager is built without; non-trivial = some request named another dialer than the one the pending dial / held connection "
+              "of its address was started through and was answered (handed the connection, or an error); the labels prefixed 'dialer:' / 'ctx:' count the shapes (other name meets pending dial / held "
+              "connection, unregistered name, deadline expired while waiting / holding / on the originator of a pending dial)"),
         assumptions=COMMON + [SYNCTEST_ASSUMPTION,
                               "connections are idle grpc.NewClient(\"passthrough:///<addr>\") clients with insecure credentials: no network; closed is observed as connectivity.Shutdown",
                               "who closed a connection is decided by bookkeeping: the scenario records each of its own Close() calls before making it; a connection found SHUTDOWN while held that the scenario did not close was closed by the manager. "
                               "After a scenario-side Close the documentation does not say whether the dead connection is shared until its last release (what the code does) or replaced: both are accepted; a request answered with an error there is not counted as a holder. "
                               "Transports of connected clients are refused, hang, or are net.Pipe connections to a service-less grpc.Server inside the bubble",
-                              "one dialer (DEFAULT) per manager plus an unregistered dialer name; dial functions return either a non-nil connection or a non-nil error",
+                              "one dialer (DEFAULT) per manager plus an unregistered dialer name; dial functions return either a non-nil connection or a non-nil error"
+                              " (stepwise parts since the dialers dimension: up to four registered dialers - two scripted, one always failing, one always succeeding - and two unregistered names; the dialer name is drawn per "
+                              "request for any address in any state; C16 does not say what a request naming another dialer than the cached attempt's is answered, so sharing, an error, and a dial of its own while no dial "
+                              "for the address is in flight are all accepted, and a request naming an unregistered dialer must not reach a dial function)",
                               "in the stepwise parts every done func is called from one goroutine at a time (releases are separate steps; the stress, storm and convoy parts call one done func from several goroutines at once); in the stepwise parts races between Connection() and done() are serialised by "
                               "the manager's mutex and are explored only through the two gates"],
         parts=[
@@ -308,6 +360,10 @@ CHECKS = {
             # calls Close() on the *grpc.ClientConn it was handed, a dial function hands back a connection it closed itself, Connect()/ResetConnectBackoff()/virtual time take the
             # connection through CONNECTING / TRANSIENT_FAILURE / READY (in-bubble gRPC server over net.Pipe) / IDLE, one done func called from several goroutines at once
             dict(name="outside", run="TestC16Outside", checks=dict(quick=3000, thorough=30000), shards=dict(quick=1, thorough=8)),
+            # every argument of Manager.Connection per request, combined freely on ONE address (stepwise, exact model; a fifth of the requests of random / wide / outside too): the dialer
+            # name (default, a second scripted one, always-failing, always-succeeding, never registered, left out of this case's Manager) varies between the requests for the address
+            # while a dial is pending, the connection is held or was just released; contexts background / already cancelled / cancelled later / deadline in virtual time (tick steps)
+            dict(name="dialers", run="TestC16Dialers", checks=dict(quick=3000, thorough=30000), shards=dict(quick=1, thorough=8)),
         ],
     ),
     "C04": dict(
@@ -452,6 +508,14 @@ CHECKS = {
             "session part: 'a generation of the stream' is what client.go defines - the generator built when Client.Run starts and, for POLL subscriptions, when a Poll arrives; the clauses are applied per generation "
             "with the configuration in force at that moment; a message a STREAM / ONCE subscription receives after its SubscriptionList is documented as an invalid event that is logged and skipped",
             "session part: a Poll that reaches a POLL subscription in the middle of a round is undocumented: any split of what follows into the rest of the old generation and one complete new generation is accepted",
+            "numeric part: magnitudes are NOT confined to +-2^40 - range bounds, initial values, value deltas, option-list members and seeds are any int64 / uint64 / finite float64 (+-Inf as below), timestamp deltas any "
+            "non-negative int64; the domain ends where the unchanged generator's own arithmetic ends: a span handed to rand.Int63n (maximum-minimum of a uniform int / uint range, delta_max-delta_min of a cumulative range "
+            "and of a timestamp) is at most 2^63-2 (2^63-1 and more panic; the border 2^63-2 is generated); a stepped timestamp stays representable over the pulled prefix (timestamp + pulls*delta_max <= MaxInt64; "
+            "reaching MaxInt64 exactly is generated); +Inf is a double maximum in both modes, -Inf a minimum only of cumulative ranges with a finite delta span, +Inf a delta_max only above a finite minimum, -Inf never a "
+            "delta (the unchanged arithmetic computes Inf-Inf = NaN there); NaN is never a bound",
+            "numeric part: where value+delta of a cumulative int / uint range is not representable the unchanged tree wraps and then clamps (a counter at its maximum may jump to its minimum): the statement only promises "
+            "'within its configured range', and only that is demanded",
+            "a bounded repeat count above 65536 is observed as a prefix, like an unbounded one: never more emissions than the count, and a source that ends before the count is reached violates the repeat clause",
         ],
         parts=[
             dict(name="random", run="TestC20Random", checks=dict(quick=10000, thorough=50000), shards=dict(quick=1, thorough=16)),
@@ -459,13 +523,15 @@ CHECKS = {
             dict(name="edges", run="TestC20Edges", checks=dict(quick=3000, thorough=30000), shards=dict(quick=2, thorough=8)),
             dict(name="syncs", run="TestC20Syncs", checks=dict(quick=4000, thorough=30000), shards=dict(quick=2, thorough=8)),
             dict(name="session", run="TestC20Session", checks=dict(quick=2500, thorough=20000), shards=dict(quick=2, thorough=8)),
+            dict(name="numeric", run="TestC20Numeric", checks=dict(quick=2500, thorough=25000), shards=dict(quick=2, thorough=8)),
         ],
     ),
     "C19": dict(
         engine="pathvalprop",
         technique=("property-based testing (rapid) against an independent reference index written from the documentation, "
                    "repetition against map-order randomisation, client->wire->server and scalar round trips, "
-                   "relational oracle (total / symmetric / sound) for value.Equal; same oracles behind native fuzz targets on wire bytes"),
+                   "relational oracle (total / symmetric / sound) for value.Equal; same oracles behind native fuzz targets on wire bytes; "
+                   "stateful part: generated histories of calls and in-place changes over a pool of re-used message objects, every result judged against the reference conversion of the content at that call"),
         level_text=("Tens of thousands of generated gNMI paths (elem and deprecated element form, 0-6 elements, 0-4 keys each, arbitrary valid UTF-8 "
                     "incl. empty strings, '/', '*', '[') are indexed 64 times per build in five builds of the same path (keys inserted forward, reversed, rotated; "
                     "proto.Clone; marshal+unmarshal) and compared with a reference index computed from plain data without any Go map; CompletePath is compared "
@@ -473,7 +539,14 @@ CHECKS = {
                     "taken through gnmi client ToSubscribeRequest, proto.Marshal/Unmarshal and the server's path.CompletePath; every supported Go scalar type "
                     "(extreme ints, NaN/Inf/-0, invalid UTF-8, nested []interface{}) and a dozen unsupported types go through FromScalar/ToScalar; pairs of "
                     "TypedValues over every oneof arm, unset and nil (second = clone, single-field mutation, arm switch, independent) are checked for "
-                    "no panic, Equal(a,b)==Equal(b,a) and Equal => same value. Bounded random exploration, not a proof."),
+                    "no panic, Equal(a,b)==Equal(b,a) and Equal => same value. Bounded random exploration, not a proof. "
+                    "Part history: sequences of 3-24 steps over 1-3 *gnmi.Path, 0-3 *gnmi.TypedValue, 0-2 client.Query and 0-2 Go slice objects that live for the whole case; "
+                    "steps are calls (ToStrings, CompletePath - also with one object as prefix and path, or as prefix of one call and path of the next -, the query conversion, "
+                    "FromScalar/ToScalar, Equal) and changes the caller makes in place between them (key value rewritten, key added/removed/renamed, element appended/truncated/renamed/replaced, "
+                    "Elem slice replaced, origin/target changed, proto.Reset + Merge/Unmarshal of another path, content copied from or swapped with another pooled object, oneof arm switched, "
+                    "payload rewritten inside the same wrapper, leaf-list elements rewritten/appended/dropped in place, a Go slice rewritten over its own storage); every result must equal the "
+                    "reference conversion of the content the objects have at that call (a conversion is a function of content, never of object identity or call history), Equal/ToScalar "
+                    "must answer the same for the same content within a history, and no call may modify its arguments; the code under test is only ever called on the pooled objects."),
         level_note=("trusts the 40-line reference index (refIndexSpec), the arm-wise 'same value' relation (sameValue: same arm and equal payload, floats and "
                     "decimals compared numerically so that +0/-0 and 10e-1/1e0 may be equal) and protobuf-go; Equal answering false for identical values "
                     "(JSON/any/ascii/proto_bytes, NaN, unset) is allowed by the property; FromScalar([]string) with invalid UTF-8 is accepted either way "
@@ -483,6 +556,7 @@ CHECKS = {
               "non-trivial = (index, complete, fuzz-path) some elem carries >=2 keys whose name order differs from their insertion order; "
               "(query) some element contains '/'; (scalar) the value needs widening, is a slice, or must be rejected; "
               "(equal) the operands differ in exactly one field; (fuzz-value) two non-nil operands of the same arm that are different values. "
+              "(history) a case is one sequence of calls and in-place changes on pooled objects; non-trivial = some object is converted, changed in place and converted again. "
               "distinct = distinct hash of the scenario, per part"),
         assumptions=COMMON + [
             "strings inside gnmi.Path / TypedValue string fields are valid UTF-8 (protobuf refuses to marshal anything else)",
@@ -499,6 +573,8 @@ CHECKS = {
             dict(name="equal", run="TestC19Equal", checks=dict(quick=30000, thorough=200000), shards=dict(quick=1, thorough=8)),
             # the same five oracles on large shapes: 5-10 keys per element, 50-300 elements, 6-60 query elements, 50-300 leaf-list values, 1-8 KiB strings
             dict(name="large", run="TestC19Large", checks=dict(quick=4000, thorough=40000), shards=dict(quick=1, thorough=8)),
+            # histories over message objects: 3-24 calls and in-place changes on a pool of re-used path / TypedValue / query / Go slice objects; every result = reference conversion of the content at that call
+            dict(name="history", run="TestC19History", checks=dict(quick=10000, thorough=100000), shards=dict(quick=1, thorough=8)),
             # free-running: 2-16 goroutines repeat their own conversions on shared and private inputs; every result must equal the result of the same call run alone
             dict(name="concurrent", run="TestC19Concurrent", checks=dict(quick=100, thorough=500), shards=dict(quick=4, thorough=8),
                  args=dict(quick=["-c19.rounds=300"], thorough=["-c19.rounds=1000"])),
@@ -545,6 +621,9 @@ CHECKS = {
             dict(name="multiremove", run="TestC06MultiRemove", checks=dict(quick=3000, thorough=12000), shards=dict(quick=1, thorough=8)),
             # container notifications (atomic or not: prefix + 1-5 members) against subscribers at / above / below the prefix on touched and untouched paths; match, server and real-cache layers
             dict(name="atomic", run="TestC06Atomic", checks=dict(quick=3000, thorough=16000), shards=dict(quick=1, thorough=8)),
+            # table notifications of 1-1100 entries (sizes around 64 / 128 / 1024; atomic or not; updates and/or deletes) against subscribers at / above / below the prefix,
+            # on rows, sibling rows, absent columns, with globs; match layer at every prefix cut, server and real-cache layers
+            dict(name="size", run="TestC06Size", checks=dict(quick=1000, thorough=6000), shards=dict(quick=1, thorough=8)),
         ],
     ),
     "C17": dict(
@@ -568,7 +647,7 @@ CHECKS = {
               "names x 3 request bodies, 3 address sets, with a revision that is current+{1,2,3,0,-1,-3} or an absolute value (incl. int64 extremes). "
               "non-trivial = some accepted load changes a request body and re-points or removes a target in the same revision, or a rejected load lies "
               "between two accepted ones; distinct = distinct hash of the scenario"),
-        assumptions=COMMON + ["base configurations passed to NewConfigWithBase are valid (an invalid base is refused by the constructor and is not part of C17)",
+        assumptions=COMMON + ["base configurations passed to NewConfigWithBase are valid (an invalid base is refused by the constructor and is not part of C17); part edges alone offers invalid bases and demands exactly that refusal",
                               "the caller does not modify a configuration message after handing it to Load / NewConfigWithBase",
                               "all three Handler callbacks are set (nil callbacks are skipped by the code and cannot be observed)"],
         parts=[
@@ -582,6 +661,11 @@ CHECKS = {
             # 2-3 loads in flight on one Config, the first parked inside one of its handler calls (harness-owned handlers, launch-while-parked); results, the handler
             # calls in invocation order (uninterrupted batches) and the final Current() must be those of ONE sequential order; replay in invocation order yields Current()
             dict(name="overlap", run="TestC17Overlap", checks=dict(quick=4000, thorough=40000), shards=dict(quick=2, thorough=8)),
+            # the validity predicate at its edges: a reference predicate written clause by clause from target.proto and the package's error texts; configurations with ONE field on the
+            # edge of one clause (unset request name, name in another case / with spaces, empty / blank map keys, nil / empty messages as map values, address list nil / empty / with
+            # empty strings / duplicates, partial credentials, request contents below the documented minimum) plus the neighbouring entry a careless lookup would be satisfied by;
+            # offered through Load, NewConfigWithBase, Validate and the first Load of a fresh Config, which must give one verdict; clauses the documentation leaves open are not judged
+            dict(name="edges", run="TestC17Edges", checks=dict(quick=5000, thorough=50000), shards=dict(quick=2, thorough=8)),
         ],
     ),
     "C02": dict(
@@ -813,7 +897,8 @@ EXT = {
               "call had not invoked yet"),
     ),
     "C16": dict(
-        technique="; the stepwise model at sizes beyond 32/64/128; free-running storms in virtual time; real-scheduler convoys in front of the Manager's lock",
+        technique=("; the stepwise model at sizes beyond 32/64/128; free-running storms in virtual time; real-scheduler convoys in front of the Manager's lock; "
+                   "every argument of Connection (dialer name, context kind incl. virtual-time deadlines) as per-request data under an either-way oracle for what the property leaves open"),
         level_text=(" Part wide: the exact stepwise model with 4-260 addresses and up to 300 threads (many dials pending / requesters blocked at once). Part storm: 1-300 requesters over 1-375 "
                     "addresses free-running in one bubble with slow scripted dials, cancellation at every phase, 1-4 concurrent calls of the same done func, nested re-acquire, probes; "
                     "every requester returns (bubble quiescence), at most one dial per address in flight, outcomes belong to the requester's own address, a held connection is never SHUTDOWN, "
@@ -918,7 +1003,23 @@ EXT2 = {
     "C16": dict(level_text=" Further: dialer names (registered, unregistered, failing) as a generated dimension."),
     "C17": dict(level_text=(" Parts degenerate (nil / empty request and credentials values, empty-but-present maps), alias (every message obtained from Current() and every rejected or superseded message is "
                             "scribbled on afterwards; read-modify-write through Current()), overlap (2-3 loads in flight with load 0 parked inside its k-th handler; invocation-order replay equals Current(), "
-                            "each load's calls contiguous, results explained by one sequential order).")),
+                            "each load's calls contiguous, results explained by one sequential order)."
+                            " Part edges: the validity half of the gate at the edge of every clause. The reference predicate is written clause by clause from target.proto and the package's error texts "
+                            "(non-empty target name; a target message; at least one address, nil and empty lists alike, whatever else the target carries; a request name that is set; that exact "
+                            "string defined in the request map); request keys (the empty and the blank one included), credentials with any subset of fields, duplicate addresses and target names "
+                            "differing only in case or spaces are valid. Configurations put ONE field on such an edge and, deliberately, the neighbouring entry a careless reading would be satisfied "
+                            "by: an unset request name next to a request under the empty key, a name in another case / with spaces next to the exact one (and the key varied while the targets keep "
+                            "the name), the empty target name with a valid / nil / empty value, a nil or empty target message next to the same name in another spelling, no address next to "
+                            "credentials and dialer, an address list present without entry; as a relative edit of the current configuration, as a complete configuration, as the base, plain, through "
+                            "the text format and with empty maps present. Every offered configuration also goes to Validate, NewConfigWithBase and the first Load of a fresh Config, which must give "
+                            "one verdict (a refusal without effect, an acceptance with Current() == the configuration and one Add per target). Clauses the documentation leaves open are labelled and "
+                            "not judged: an address that is the empty or a blank string, and request CONTENT below what target.proto asks for (nil, empty, poll arm, no / empty subscription list, no "
+                            "origin, ONCE) - there the code's verdict is followed and everything else (stale revision refused, no effect of a refusal, exact announcement, agreement of the entry "
+                            "points) is still demanded."),
+                technique="; a clause-by-clause reference validity predicate probed at its edges through every validating entry point",
+                level_note="; part edges trusts the ~40-line reading of the documentation in targetprop/edges.go (which clauses are decided, which are left open)",
+                rule=(" edges: cases are 1-10 loads (and possibly a base) of such configurations; non-trivial = some offered configuration combined an invalidating edge value with a second edge "
+                      "value (invalidating, or valid on its own) and some load of the case was applied")),
     "C18": dict(level_text=(" Further: the query kind of every Subscribe (Stream, Poll, Once, Unknown, invalid queries). Part real: the real client/gnmi transport against an in-process gRPC server: "
                             "set-ups that fail after a successful dial, traps that cancel or Close between dial, RPC start and first Send, repeated Subscribe/Close on one object."),
                 level_note="; in part real a call that does not return within 30 s of real time is inconclusive, never a violation"),
@@ -928,7 +1029,10 @@ EXT2 = {
 }
 # round 5 (seeds I, J)
 EXT3 = {
-    "C06": dict(technique="; requests dressed with every field the server does not implement, compared with their undressed twin; virtual time passing between operations",
+    "C06": dict(technique=("; requests dressed with every field the server does not implement, compared with their undressed twin; virtual time passing between operations"
+                           "; the number of entries of a notification (1 - 1100, sampled around 64 / 128 / 1024) as a dimension of the filter, both directions of the 'iff' for every subscriber"),
+                rule=(" size: cases are scenarios around one table (1-3 table notifications, 2-7 subscribers or a crowd of 9-130); non-trivial = a notification of 65+ entries meets, at once, a "
+                      "subscriber at or above its prefix, one strictly below it that an entry agrees with and one strictly below it that no entry agrees with"),
                 level_text=(" Server and atomic parts, a good third / half of the scenarios: every SubscribeRequest field subscribe.go never reads is given arbitrary values, per subscription "
                             "independently - Subscription.mode (TARGET_DEFINED / ON_CHANGE / SAMPLE and numbers outside the enum), sample_interval, heartbeat_interval (1 ns - 1 h, MaxUint64), "
                             "suppress_redundant, Path.target of a subscription path; SubscriptionList.qos, allow_aggregation, use_models, encoding; SubscribeRequest.extension (registered, master "
@@ -937,7 +1041,16 @@ EXT3 = {
                             "oracles (offered iff compatible, once, trie census, others unaffected) plus: the same scenario without the dressing, run on a second server, must be observed alike step "
                             "by step (offers per notification and subscriber, live RPCs, trie - real code on both sides); after virtual sleeps of 1 ms - 25 h (capped at 1000x the shortest interval "
                             "a request names) and after every subscribe / end nothing may have reached any subscriber; while one notification is handed over no earlier one may be sent again; in "
-                            "half of the dressed scenarios all updates carry one value (redundant in the sense of suppress_redundant).")),
+                            "half of the dressed scenarios all updates carry one value (redundant in the sense of suppress_redundant)."
+                            " Part size: TABLE notifications - a prefix of 0-3 elements, rows x columns below it (tall, wide = one or two rows of many columns, square; the row a plain element or a list "
+                            "key), 1 - 1100 entries with the counts sampled at 63/64/65/66, 127/128/129, 200, 300, 1000/1024/1025/1100 and in between, atomic or not, all updates / all deletes / split at "
+                            "1, 63-65, half / updates plus one or two deletes, in ascending, descending or shuffled order, with repeated paths or one path 65+ times, an entry with '*' as its row, two "
+                            "or three such notifications under one prefix and the first one delivered again - against subscribers placed by the POSITION of a cell in the notification (first, last, "
+                            "62nd-66th, 126th-129th, ...): at / above the prefix, on the cell, on its row, on a sibling row that is not in the notification, on a column the row does not carry, with '*' "
+                            "in the row, column or prefix position, deeper than the cell, under another list name, outside; 1-3 paths per subscriber, 2-7 subscribers, one scenario in twelve a crowd "
+                            "of 9-130. Every notification is judged for every live subscriber by the relation of the statement (offered iff some entry agrees, at most once) at the match layer "
+                            "(UpdateNotification with the prefix/entry boundary at EVERY position, the empty prefix included), through Server.Subscribe / Server.Update and through a real cache feeding "
+                            "the server. The random and server parts also draw notifications of 63-300 entries (a bit under 1% of their scenarios).")),
     "C07": dict(level_text=(" Further (a tenth of the scenarios): writer notifications handed to the exported per-target entry point of ANOTHER target than the one their prefix names "
                             "(cache.GetTarget(x).GnmiUpdate): stored in x's tree, every response built from them still names the prefix target, so a caller authorised for x and denied the named "
                             "target must not be sent them (single-target and all-targets subscriptions alike). 8% of the subscriptions begin with something that is not a request (half-close, Poll, no prefix, no target, "
@@ -975,7 +1088,8 @@ EXT3 = {
                             "whatever the number of triggers; or it stays away and the next sleep step judges the send timeout of the POLL subscription. "
                             "Part huge: the stalled subscriber is STREAM, ONCE or POLL (the walk of a ONCE/POLL queues the whole target behind a sender blocked from the first response on).")),
     "C20": dict(technique=("; scripted sessions on ONE fake Client / ONE fake Agent (subscriber messages and lifecycle calls at exact positions of the emitted stream, quiescent points of a synctest bubble "
-                           "as gates): the trace predicates per generation of the stream, and the metamorphic relation 'a generation equals what a fresh Client sends on an undisturbed subscription'"),
+                           "as gates): the trace predicates per generation of the stream, and the metamorphic relation 'a generation equals what a fresh Client sends on an undisturbed subscription'"
+                           "; a generator that puts every numeric field of the configuration at the limits of its type, judged by the same predicates with overflow-safe comparisons"),
                 level_text=(" Part session: one fake/gnmi.Client lives through a generated script - 1-3 Client.Run calls (STREAM / ONCE / POLL SubscriptionList, or a stream that begins with something "
                             "else: Run must refuse it), and at generated positions of the emitted stream (before anything was read, after k responses, after the sync marker, after the end, "
                             "after Run returned) Poll messages in every mode, further SubscriptionLists, requests without a payload or with an empty oneof arm, the subscriber closing its "
@@ -990,12 +1104,26 @@ EXT3 = {
                             "(later latest timestamp with sync injected in both: 6%); two or more complete generations on one Client in 34% (by Poll 37%, by Run-again 35%); a sixth of the sessions "
                             "is followed by 1-3 subscriptions in a row to one real Agent (stray messages behind the SubscriptionList, polled rounds), each required to equal the in-memory Client. "
                             "Sensitivity (author's mutants, all caught within 130 cases): SetConfig resetting the running generation; receiver cancelling on io.EOF; generator or sync marker or "
-                            "latest timestamp cached across resets; a stray SubscriptionList replacing the subscription; a Poll honoured on ONCE; the Agent re-using one Client."),
+                            "latest timestamp cached across resets; a stray SubscriptionList replacing the subscription; a Poll honoured on ONCE; the Agent re-using one Client."
+                            " Part numeric: every numeric field of the configuration at the edges of its type - int / uint / double range bounds at MinInt64 / MaxInt64 / 0 / MaxUint64 / 2^63 / "
+                            "+-MaxFloat64 / denormals / +-Inf and at +-2^31, 2^32, 2^53, 2^62 give or take a few units, one-point ranges, 2-9 point ranges hugging a limit from either side, ranges between "
+                            "two such anchors, uniform ranges exactly as wide as rand.Int63n accepts (2^63-2); cumulative value deltas 0, +-1, equal, of opposite signs, positive-only, negative-only, "
+                            "about the width of the range (w-1, w, w+1, 2w), 2^31 ... MaxInt64 / MinInt64, delta spans up to 2^63-2 (doubles: denormal steps, 1e300, MaxFloat64, +Inf); timestamp deltas "
+                            "0 / 1 / 2^31 / 2^32 / 2^62 / MaxInt64 and the widest spans, the initial timestamp placed so that the last step of the pulled prefix reaches MaxInt64 exactly or stays below; "
+                            "repeat 0 / 1 / 2 / 3-8 / 255-257 (pulled to the end) / 65537 ... MaxInt32 (prefix); option lists of one element and of type limits; seeds at the int64 limits; one case in eight "
+                            "breaks a precondition AT an edge (must be an error, never a panic). Same oracles as part random; the judge decides step and due-date comparisons without forming int64 sums or "
+                            "differences (a wrapped intermediate can neither excuse nor accuse). Measured on 3000 cases: some cumulative int range whose value+delta is not an int64 in 18%, bound-delta "
+                            "not an int64 in 14%, an int range at MinInt64 / MaxInt64 14% / 16%, delta about / over the width 23% / 22%, uint range above or across 2^63 9%, double bounds at MaxFloat64 11%, "
+                            "timestamp delta >= 2^62 22% (MaxInt64 9%, span at the limit 13%), a long repeat 17%, one-option list 24%, an int64 limit emitted 26%, timestamp MaxInt64 emitted 7%. "
+                            "Sensitivity (author's mutants, each caught only by this part, within the quick budget): uint clamp written as value+delta > maximum (wraps next to MaxUint64); timestamp step "
+                            "drawn as Int63n(delta_max+1) clamped from below (panics for delta_max = MaxInt64); repeat countdown compared in 16 bits (65537 ends after one emission); double clamp applied "
+                            "to cumulative ranges only (a uniform range whose width overflows float64 emits +Inf)."),
                 level_note=("; session part: disable_eof, messages that are fatal for a POLL subscription (or the end of the subscriber's sending side) while the target waits for a Poll - Client.Run then never "
                             "returns on the unchanged tree -, nil messages, SetConfig(nil) and Run on a Client that cancelled itself are not generated; goroutines of the Client that stay blocked "
                             "after every stream was torn down are reported structurally (synctest bubble exit), never by a timeout; Agent sessions: 30 s patience or transport error = inconclusive label"),
                 rule=(" session: a case is one script on one Client (plus, for a sixth, subscriptions to one Agent); non-trivial = some generation was judged, a configuration has >=2 values, and "
-                      "an ignored message arrived while a generation was being sent, or one Client completed >=2 generations, or a configuration set by SetConfig came into force.")),
+                      "an ignored message arrived while a generation was being sent, or one Client completed >=2 generations, or a configuration set by SetConfig came into force."
+                      " numeric: cases and the non-trivial rule as in part random (1-5 values, five in six drawn with their numbers at type limits); the num-* labels record which edge classes a case carries.")),
 }
 for _pid, _ex in list(EXT2.items()) + list(EXT3.items()):
     EXT.setdefault(_pid, {})
